@@ -47,28 +47,56 @@ def _summ(prog: Program, cls: str, name: str) -> int:
                 return self.eval(e.args[0], env)
             return super().ev_Call(e, env)
 
-    it = TI(prog, Run([]))
-    s = VS(it.atoms.atom("self"))
-    o = VS(it.atoms.atom("other"))
+    from .sets import ONES as _ONES
+    from .symalg import Infeasible, RaiseSig
+
     params = fi.params
     if len(params) != 2:
         raise AnalysisError("%s has an unexpected signature" % fi.key)
-    try:
-        v = it.call_function(fi, [o], {}, self_val=s)
-    except ReturnSig as r:  # pragma: no cover
-        v = r.value
-    if it.run.trace:
-        raise AnalysisError("%s forks; outside the operator fragment" % fi.key)
-    if not isinstance(v, VS):
-        raise AnalysisError("%s does not reduce to a membership function (got %r)" % (fi.key, v))
-    return v.tt, it.atoms.masks["self"], it.atoms.masks["other"]
+    # every path (a shortcut such as `if not list2: return list1` forks on emptiness): the result must be one and the
+    # same membership function on the rows each path's condition leaves possible
+    results = []
+    stack = [[]]
+    masks = None
+    n = 0
+    while stack:
+        prefix = stack.pop()
+        n += 1
+        if n > 64:
+            raise AnalysisError("%s has too many paths for an operator" % fi.key)
+        run = Run(prefix)
+        it = TI(prog, run)
+        s = VS(it.atoms.atom("self"))
+        o = VS(it.atoms.atom("other"))
+        try:
+            v = it.call_function(fi, [o], {}, self_val=s)
+        except ReturnSig as r:  # pragma: no cover
+            v = r.value
+        except Infeasible:
+            v = None
+        except RaiseSig:
+            raise AnalysisError("%s may raise; outside the operator fragment" % fi.key)
+        for i in range(len(prefix), len(run.trace)):
+            nopt, chosen, _tag = run.trace[i]
+            for alt in range(chosen + 1, nopt):
+                stack.append([c for (_n, c, _t) in run.trace[:i]] + [alt])
+        if v is None:
+            continue
+        if not isinstance(v, VS):
+            raise AnalysisError("%s does not reduce to a membership function (got %r)" % (fi.key, v))
+        possible = it.allowed  # rows still possible on this path (a list assumed empty has no member)
+        masks = (it.atoms.masks["self"], it.atoms.masks["other"])
+        results.append((v.tt, possible))
+    if not results or masks is None:
+        raise AnalysisError("%s has no returning path" % fi.key)
+    return results, masks[0], masks[1]
 
 
 def summarise_tl_operator(prog: Program, name: str, cls: str = "TermList") -> str:
     key = (prog.digest, cls + "." + name)
     if key in _CACHE:
         return _CACHE[key]
-    tt, s, o = _summ(prog, cls, name)
+    results, s, o = _summ(prog, cls, name)
     from .sets import ONES
 
     table = {
@@ -79,7 +107,9 @@ def summarise_tl_operator(prog: Program, name: str, cls: str = "TermList") -> st
         o: "right",
         o & (ONES ^ s): "rdiff",
     }
-    kind = table.get(tt)
+    kinds = [k for want, k in table.items() if all(((tt ^ want) & possible) == 0 for tt, possible in results)]
+    # prefer the operator that explains the unrestricted path(s)
+    kind = kinds[0] if kinds else None
     if kind is None:
         raise AnalysisError("TermList.%s computes an unrecognised set function" % name)
     if kind in ("left", "right", "rdiff"):
